@@ -729,8 +729,14 @@ func URLEscape(v []byte, resolveReference bool) []byte {
 			n = i
 			continue
 		}
+		for j := i + 1; j < stop; j++ {
+			if v[j]&0xc0 != 0x80 { // not a continuation byte: the sequence ends here
+				stop = j
+				break
+			}
+		}
 		cob.Write(StringToReadOnlyBytes(url.QueryEscape(string(v[i:stop]))))
-		i += int(u8len)
+		i = stop
 		n = i
 	}
 	if cob.IsCopied() && n < limit {
